@@ -111,7 +111,92 @@ fn data(n: usize, p: usize) -> (DVector<f64>, DVector<f64>, DVector<f64>) {
     (x, y, start)
 }
 
+/// the same model without interior mutability (Sync: usable with the parallel problem flavour)
+pub struct PlainModel {
+    pub x: DVector<f64>,
+    pub alpha: DVector<f64>,
+    pub poison: Option<(usize, usize, f64)>,
+}
+impl SeparableNonlinearModel for PlainModel {
+    type ScalarType = f64;
+    type Error = E;
+    fn parameter_count(&self) -> usize {
+        self.alpha.len()
+    }
+    fn base_function_count(&self) -> usize {
+        self.alpha.len() + 1
+    }
+    fn output_len(&self) -> usize {
+        self.x.len()
+    }
+    fn set_params(&mut self, p: OVector<f64, Dyn>) -> Result<(), E> {
+        self.alpha = p;
+        Ok(())
+    }
+    fn params(&self) -> OVector<f64, Dyn> {
+        self.alpha.clone()
+    }
+    fn eval(&self) -> Result<OMatrix<f64, Dyn, Dyn>, E> {
+        let p = self.alpha.len();
+        let mut m = DMatrix::from_fn(self.x.len(), p + 1, |i, j| if j < p { (-self.x[i] * self.alpha[j]).exp() } else { 1.0 });
+        if let Some((i, j, v)) = self.poison {
+            if i < m.nrows() && j < m.ncols() {
+                m[(i, j)] = v;
+            }
+        }
+        Ok(m)
+    }
+    fn eval_partial_deriv(&self, k: usize) -> Result<OMatrix<f64, Dyn, Dyn>, E> {
+        let p = self.alpha.len();
+        Ok(DMatrix::from_fn(self.x.len(), p + 1, |i, j| if j == k && j < p { -self.x[i] * (-self.x[i] * self.alpha[j]).exp() } else { 0.0 }))
+    }
+}
+
+/// parallel flavour of `nonfinite` (cfg par=1)
+fn nonfinite_par(cfg: &Cfg, out: &mut Out<f64>) {
+    let (n, p) = (cfg.usize("n", 4), cfg.usize("p", 1));
+    let (x, mut y, start) = data(n, p);
+    let val = special(&cfg.str("val", "nan"));
+    let wher = cfg.str("where", "phi");
+    let (pi, pj) = (cfg.usize("i", 0), cfg.usize("j", 0));
+    let mut w = DVector::from_fn(n, |i, _| 1.0 + 0.1 * i as f64);
+    let mut alpha0 = start;
+    let mut poison = None;
+    match wher.as_str() {
+        "phi" => poison = Some((pi, pj, val)),
+        "y" => y[pi.min(n - 1)] = val,
+        "w" => w[pi.min(n - 1)] = val,
+        "alpha" => alpha0[pj.min(p - 1)] = val,
+        _ => {}
+    }
+    let model = PlainModel { x, alpha: alpha0, poison };
+    let mut b = LevMarProblemBuilder::new_parallel(model).observations(y);
+    if cfg.usize("weights", 1) == 1 {
+        b = b.weights(w);
+    }
+    let built = b.build();
+    out.fact("C08.build_returns", true, String::new());
+    let Ok(mut problem) = built else {
+        return;
+    };
+    if wher == "phi" {
+        out.fact("C08.nonfinite_state_rejected", problem.residuals().is_none() || val.is_finite(), "[parallel] residuals present for a non-finite basis matrix".into());
+    }
+    let pr = problem.params();
+    problem.set_params(&pr);
+    let _ = problem.jacobian();
+    out.fact("C08.set_params_returns", true, String::new());
+    let r = LevMarSolver::default().fit_with_statistics(problem);
+    out.fact("C08.fit_returns", true, String::new());
+    if wher == "phi" && !val.is_finite() {
+        out.fact("C08.nonfinite_model_is_failed_fit", r.is_err(), "[parallel] fit_with_statistics returned Ok for a model with a non-finite basis matrix".into());
+    }
+}
+
 pub fn nonfinite(cfg: &Cfg, out: &mut Out<f64>) {
+    if cfg.usize("par", 0) == 1 {
+        return nonfinite_par(cfg, out);
+    }
     let (n, p) = (cfg.usize("n", 4), cfg.usize("p", 1));
     let (x, mut y, start) = data(n, p);
     let val = special(&cfg.str("val", "nan"));
